@@ -320,6 +320,8 @@ def _decide(prop, tier, seed, mod, results, problems, nshards, t0, replay):
         new_violation_keys.append(key)
         safe = ''.join(c if c.isalnum() or c in '-_.' else '_' for c in key)[:80]
         path = os.path.join(replay_dir, f'{prop}-{safe}.json')
+        if os.environ.get('VP_NO_EVIDENCE'):
+            path = os.path.join(tempfile.gettempdir(), os.path.basename(path))
         if not replay:
             with open(path, 'w') as f:
                 json.dump({'property': prop, 'key': key, 'count': v['count'], 'tier': tier,
@@ -357,7 +359,7 @@ def _decide(prop, tier, seed, mod, results, problems, nshards, t0, replay):
         lines.append(f'INCONCLUSIVE property={prop} reason={text}')
 
     wall = time.monotonic() - t0
-    if not replay:
+    if not replay and not os.environ.get('VP_NO_EVIDENCE'):
         evidence = {
             'property_id': prop, 'tier': tier, 'seed': seed, 'level': mod.LEVEL,
             'coverage': {
